@@ -146,8 +146,9 @@ class Ctx:
         an UNEXPLAINED shortfall means the rule silently stopped seeing code it used to see and is fatal."""
         for rid, r in self.rules.items():
             if r['floor'] is not None and r['found'] < r['floor']:
-                explained = any(v['rule'] == rid and v['kind'] in ('anchor-missing', 'undecided') for v in self.violations) or \
-                    any(v['rule'] == 'ENGINE' for v in self.violations)
+                # anchors are shared between the rules of a property (one missing function starves several rules), so any reported
+                # missing anchor / undecided instance of this run explains a shortfall
+                explained = any(v['kind'] in ('anchor-missing', 'undecided') for v in self.violations)
                 self.violation(rid, 'floor', 'only %d instance(s) analysed, %d were counted on the pinned tree: the rule lost its anchors%s' % (
                     r['found'], r['floor'], '' if explained else ' and nothing explains it'),
                     kind='anchor-missing' if explained else 'violation', count_instance=False)
